@@ -49,8 +49,8 @@ theorem accepted_iff (env : Env) (S : Schema) (tid : TypeId) (depth : Nat) (payl
   | error e => simp
   | ok v =>
     cases hv : validate env S tid v with
-    | error e => simp
-    | ok u => cases u; simp
+    | error e => simp [hv]
+    | ok u => cases u; simp [hv]
 
 /-- Every value validates against the well-known `Any` type of the current tree, in every schema. -/
 theorem any_accepts_everything (S : Schema) (v : SV) : validate genEnv S (anyTid genEnv) v = .ok () :=
